@@ -71,7 +71,7 @@ def generate_system_state(network, space, units_system, state_dict={}) :
                 raise TypeError("state_dicts's values must be UnitArrays.")
             if state_dict[s.label].units.dim != {"space":0, "time":0, "quantity":1}: 
                 raise ValueError("state_dicts's UnitArray dimension must be a quantity.")
-            if state_dict[s.label].len() != space.size() : 
+            if len(state_dict[s.label]) != space.size() : 
                 raise ValueError("state_dicts's UnitArrays length must match the syqtem size.")
             state = np.concatenate((state, state_dict[s.label].convert(units_system).value))
         else :
